@@ -587,7 +587,7 @@ def run(ctx):
     built = ctx.build("C20", deps=["Model/Strl.v"])
     mark("coq_build")
     quick = ctx.tier == "quick"
-    n_cases = 360 if quick else 4000
+    n_cases = 320 if quick else 4000
     n_sat = 4 if quick else 8
 
     try:
@@ -716,10 +716,13 @@ def run(ctx):
     mark("monitors")
 
     # ---- the lowering as the Scheduler runs it: passes, range-based discretisation (checked, not modelled)
-    run_passes_stage(ctx, exe, quick, model_ok)
+    lowered = []
+    run_passes_stage(ctx, exe, quick, model_ok, mon_out=lowered)
     mark("passes_stage")
-    run_windowed_stage(ctx, exe, quick, model_ok)
+    run_windowed_stage(ctx, exe, quick, model_ok, mon_out=lowered)
     mark("windowed_stage")
+    run_monitors(ctx, lowered, model_ok, prefix="S-strl-passes-")      # passes + ranges + WindowedChoose read-backs
+    mark("lowering_monitors")
 
     # ---- known findings: replay the witnesses on the implementation
     replay_f13(ctx, exe)
@@ -1062,7 +1065,8 @@ def model_optimum(d):
 class PassGen(Gen):
     """tiny fork/join trees on contended partitions."""
 
-    def case(self):
+    def case(self, force=None):
+        """force: None | 'fork' | 'join' (a tree built around one tightening LessThan)"""
         r = self.rng
         self.nid = 0
         npart = r.choice([1, 1, 2])
@@ -1070,9 +1074,16 @@ class PassGen(Gen):
         pt = [[p, r.choice([1, 1, 2]), 1] for p in self.pids]
         self.horizon = r.choice([6, 8])
         self.budget = r.choice([3, 4, 5])       # Choose leaves
+        self.did_tight = False
         kids = []
+        if force:
+            self.did_tight = True
+            kids.append(self.tight(force == "join"))
+            self.budget = r.choice([0, 0, 1])
         while self.budget > 0:
             kids.append(self.shape())
+        if self.did_tight:                      # the two children of the Min run concurrently: leave room for both
+            pt = [[p, 2, 1] for p in self.pids]
         return {"pt": pt, "now": 0, "g": 1, "tree": ["OBJ", self.fresh(), kids], "kind": "passes"}
 
     lo = 0
@@ -1118,8 +1129,48 @@ class PassGen(Gen):
         self.lo = old
         return ["LT", self.fresh(), x, y]
 
+    def options(self, parts, amount, starts, dur, utils):
+        self.budget -= len(starts)
+        return ["MAX", self.fresh(), [["C", self.fresh(), parts, amount, s, dur, u] for s, u in zip(starts, utils)]]
+
+    def tight(self, join):
+        """LessThan that TIGHTENS a Min whose children have different durations (critical-path pass): the short child is a
+        Max over start times spanning the boundary, the long child a Choose; no F15 forcing (the side opposite to the Min is
+        a Max, whose time variables are free when it is unsatisfied).  fork: LessThan(Max A, Min[Max B, C]);
+        join: LessThan(Min[Max B, C], Max D)."""
+        r = self.rng
+        parts = r.sample(self.pids, r.choice([1, len(self.pids)]))
+        short, long_ = r.choice([1, 1, 2]), r.choice([3, 4])
+        nb = r.choice([3, 4])
+        if not join:
+            a0, da = r.randrange(0, 3), r.choice([1, 2])
+            a = self.options(parts, 1, [a0, a0 + r.choice([1, 2])], da, [r.choice([2, 3]), 1])
+            e = a0 + da                                   # earliest end of A: the boundary
+            b0 = e - r.choice([0, 1, 1])
+            nb = max(nb, e + (long_ - short) + r.choice([0, 1]) - b0 + 1)    # an option survives any bound up to e + long - short
+            b = self.options(parts, 1, [b0 + i for i in range(nb)], short, [max(1, 3 - i) for i in range(nb)])
+            self.budget -= 1
+            c = ["C", self.fresh(), parts, 1, e + r.choice([0, 0, 1]), long_, r.choice([1, 2, 3])]
+            kids = [b, c] if r.random() < 0.5 else [c, b]
+            return ["LT", self.fresh(), a, ["MIN", self.fresh(), kids]]
+        c0 = r.randrange(0, 2)
+        self.budget -= 1
+        c = ["C", self.fresh(), parts, 1, c0, long_, r.choice([1, 2, 3])]
+        d0 = c0 + long_ + r.choice([0, 0, 1])             # earliest D start >= end of C
+        d1 = d0 + r.choice([1, 2])                         # latest D start: the boundary for the ends of B
+        d = self.options(parts, 1, [d0, d1], r.choice([1, 2]), [r.choice([2, 3]), 1])
+        b1 = d1 - short + r.choice([0, 1, 1])              # latest B start at / beyond the boundary
+        lowest = max(0, min(b1 - (nb - 1), d1 - long_ - r.choice([0, 1])))   # an option survives any bound down to d1 - long
+        bs = list(range(lowest, b1 + 1))
+        b = self.options(parts, 1, bs, short, [min(3, 1 + i) for i in range(len(bs))])
+        kids = [b, c] if r.random() < 0.5 else [c, b]
+        return ["LT", self.fresh(), ["MIN", self.fresh(), kids], d]
+
     def shape(self):
         x = self.rng.random()
+        if self.budget >= 3 and x < 0.30 and not self.did_tight:
+            self.did_tight = True
+            return self.tight(x < 0.15)
         if x < 0.20:
             return self.unit()
         if x < 0.40:
@@ -1156,20 +1207,23 @@ def driver_text_cfg(c, assigns, ranges=None, passes=None, g=None):
     return head + "\n" + extra + rest
 
 
-def run_passes_stage(ctx, exe, quick, model_ok):
+def run_passes_stage(ctx, exe, quick, model_ok, mon_out=None):
     rng = ctx.rng
-    n_trees = 30 if quick else 600
-    cap = 24 if quick else 300
+    n_trees = 26 if quick else 600
+    cap = 16 if quick else 300
     gen = PassGen(rng)
     ctx.rules.append(
-        "S-strl-passes: %d tiny fork/join trees (<= 5 Choose leaves incl. Max-of-Choose at increasing start times, "
-        "LessThan(Min(..),B), LessThan(A,Min(..)), Min(LessThan(..),C); 1-2 partitions of quantity 1-2, all contended), each "
+        "S-strl-passes: %d tiny fork/join trees (Max-of-Choose at increasing start times, LessThan(Min(..),B), "
+        "LessThan(A,Min(..)), Min(LessThan(..),C); a third of them built around a LessThan that TIGHTENS a Min whose children have different "
+        "durations - short child a Max over starts spanning the boundary, long child a Choose, fork and join orientation; 1-2 "
+        "partitions of quantity 1-2, all contended), each "
         "lowered by the real code under 9 configurations: unit discretisation without passes, with capacity-purge, "
         "critical-path, both; explicit time ranges (starts strictly inside ranges, usages crossing range ends) without and "
         "with purge; discretisation-selection pass; coarser static granularity without and with purge. ALL solutions of each "
         "model (<= %d, distinct on indicators+allocations) are read back and judged by the model-independent monitors; the "
         "model optimum is compared with the brute-force optimum of the expression" % (n_trees, cap))
-    trees = [gen.case() for _ in range(n_trees)]
+    n_tight = 10 if quick else 160
+    trees = [gen.case(force=("fork", "join")[i % 2]) for i in range(n_tight)] + [gen.case() for _ in range(n_trees - n_tight)]
     jobs = []       # (tree index, config name, ranges, passes, g)
     for ti, c in enumerate(trees):
         rs = gen_ranges(rng, max(leaf_span(l)[0] for l in leaves(c["tree"])) + 1)
@@ -1292,7 +1346,10 @@ def run_passes_stage(ctx, exe, quick, model_ok):
     ctx.cov["input_distribution"]["passes_stage"] = stats
     if mon:
         ctx.sample({"stream": "S-strl-passes", "case": mon[0][0], "placements": mon[0][3]})
-    run_monitors(ctx, mon, model_ok, prefix="S-strl-passes-")
+    if mon_out is not None:          # judged together with the other not-modelled lowerings (one Coq run)
+        mon_out += mon
+    else:
+        run_monitors(ctx, mon, model_ok, prefix="S-strl-passes-")
     # optimum relations
     for ti, c in enumerate(trees):
         if flt_signature(c):
@@ -1324,7 +1381,8 @@ def run_passes_stage(ctx, exe, quick, model_ok):
                 n_opt_viol += 1
                 ctx.violation("optimum%d_%s" % (ti, name.replace("+", "_")),
                               {"stream": "S-strl-passes optimum", "case": c, "configuration": name,
-                               "model_optimum": v, "relation": op, "reference": ref,
+                               "model_optimum": v, "relation": op, "reference": ref, "brute_force_optimum": brute,
+                               "optimum_without_passes": base,
                                "reference_is": "brute-force optimum of the expression" if op != ">=" and name in ("unit", "ranges", "ranges+purge", "dd", "coarse", "coarse+purge") else "optimum without the pass",
                                "driver_input": driver_text_cfg(c, [], c["ranges"] if name.startswith("ranges") else None,
                                                                None, c["gco"] if name.startswith("coarse") else 1),
@@ -1394,7 +1452,7 @@ class WGen(PassGen):
 F16_WITNESS_TEXT = "CASE 3 2\nPART 1 1 1\nNODE 1 WCHOOSE e1 1 0 2 6 2 1 1 1\nNODE 2 OBJ e2 1 1\nROOT 2\nEND\n"
 
 
-def run_windowed_stage(ctx, exe, quick, model_ok):
+def run_windowed_stage(ctx, exe, quick, model_ok, mon_out=None):
     rng = ctx.rng
     n_trees = 14 if quick else 250
     cap = 24 if quick else 200
@@ -1457,7 +1515,10 @@ def run_windowed_stage(ctx, exe, quick, model_ok):
             xm = dict(x, windowed_tree=c["tree"], wtext=driver_text(c, [vals]))
             mon.append((xm, d, vals, exp[6], exp))
     ctx.cov["input_distribution"]["windowed_stage"] = stats
-    run_monitors(ctx, mon, model_ok, prefix="S-strl-windowed-")
+    if mon_out is not None:
+        mon_out += mon
+    else:
+        run_monitors(ctx, mon, model_ok, prefix="S-strl-windowed-")
     # finding F16: options in the past
     try:
         d = run_driver(exe, F16_WITNESS_TEXT, 1)[0]
